@@ -71,6 +71,9 @@ class Bad(Exception):
     pass
 
 
+_ARITY = {}
+
+
 def run(facts, rep):
     root = facts.bodies.get(ROOT)
     if root is None or CS not in facts.bodies:
@@ -147,40 +150,80 @@ def run(facts, rep):
                 return W(bk)
             raise Bad('unrecognised matrix expression ' + s[:80])
 
-        # selector closures: which closure is id / proj / incl, and what they build
+        # selectors: which closure (or private function of the impl) is id / proj / incl, judged by what it builds
+        from symex import apply_closure
         kinds = {}
-        for k, b in closures.items():
-            rep.saw(b)
+        arity = {}
+        cands = dict(closures)
+        for k, b in facts.bodies.items():
+            if k.startswith('yui_matrix::sparse::schur::Schur::<R>::') and '{closure' not in k and k not in (ROOT, CS):
+                cands[k] = b
+
+        def lin(x, o):
+            """affine form of an index expression in n (first parameter), k (second) and the running index i"""
+            x = strip(x)
+            if x == ('item',):
+                return {'i': 1}
+            if x == ('arg', 1 + o):
+                return {'n': 1}
+            if x == ('arg', 2 + o):
+                return {'k': 1}
+            if x[0] == 'const' and isinstance(x[1], int):
+                return {1: x[1]} if x[1] else {}
+            if x[0] == 'field' and x[2] == '0' and x[1][0] == 'bin' and x[1][1] in ('AddWithOverflow', 'SubWithOverflow'):
+                p_, q_ = lin(x[1][2], o), lin(x[1][3], o)
+                sg = 1 if x[1][1][0] == 'A' else -1
+                r_ = dict(p_)
+                for kk, c in q_.items():
+                    r_[kk] = r_.get(kk, 0) + sg * c
+                    if r_[kk] == 0:
+                        del r_[kk]
+                return r_
+            raise Bad('selector index ' + sk(x)[:60])
+        for k, b in cands.items():
+            o = 1 if '{closure' in k.split('::')[-1] else 0      # closures: parameter 1 is the environment
             for p in SymEx(b).run():
                 r = p.ret
                 if p.end != 'return' or r is None or r[0] != 'call':
                     continue
-                if r[1].endswith('SpMat::<R>::id'):
+                if r[1].endswith('SpMat::<R>::id') and len(r[2]) == 1 and strip(r[2][0]) == ('arg', 1 + o):
+                    rep.saw(b)
                     kinds[k] = 'id'
-                elif r[1].endswith('SpMat::<R>::from_entries') and r[2][1][0] == 'call' and r[2][1][2][1][0] == 'closure':
+                    arity[k] = o
+                elif r[1].endswith('SpMat::<R>::from_entries') and len(r[2]) == 2 and strip(r[2][1])[0] == 'call' and len(strip(r[2][1])[2]) == 2 and strip(strip(r[2][1])[2][1])[0] == 'closure':
+                    rep.saw(b)
                     shape = strip(r[2][0])
-                    inner = facts.bodies.get(r[2][1][2][1][1])
+                    m_ = strip(r[2][1])
+                    rng = sk(m_[2][0])
                     ent = None
-                    for q in SymEx(inner).run():
-                        if q.end == 'return' and q.ret[0] == 'tuple' and len(q.ret[1]) == 3:
+                    for q in apply_closure(m_[2][1], [('item',)]) or []:
+                        if q.end == 'return' and q.ret is not None and q.ret[0] == 'tuple' and len(q.ret[1]) == 3:
                             ent = q.ret[1]
-                    if ent is None:
+                    if ent is None or shape[0] != 'tuple' or len(shape[1]) != 2:
                         continue
-                    row, col, val = sk(ent[0]), sk(ent[1]), sk(ent[2])
-                    off = lambda x: bool(re.match(r'AddWithOverflow\(SubWithOverflow\(\*?\.*\^?(?:_ref__)?n, \*?\.*\^?(?:_ref__)?k\)\.0, arg2\)\.0$', x)) or ('SubWithOverflow' in x and 'arg2' in x and x.startswith('AddWithOverflow'))
-                    if 'one()' not in val:
-                        raise Bad('selector entries are not one(): ' + val)
-                    if shape == ('tuple', (('arg', 3), ('arg', 2))) and row == 'arg2' and off(col):
+                    if 'one()' not in sk(ent[2]):
+                        raise Bad('selector entries are not one(): ' + sk(ent[2]))
+                    if not re.match(r'^Range::Range\{start: 0, end: arg%d\}$' % (2 + o), rng):
+                        raise Bad('selector %s runs over %s' % (k.split('::')[-1], rng))
+                    sh = (lin(shape[1][0], o), lin(shape[1][1], o))
+                    row, col = lin(ent[0], o), lin(ent[1], o)
+                    shifted = {'n': 1, 'k': -1, 'i': 1}
+                    if sh == ({'k': 1}, {'n': 1}) and row == {'i': 1} and col == shifted:
                         kinds[k] = 'proj'        # (k x n), ones at (i, n-k+i): [0 1]
-                    elif shape == ('tuple', (('arg', 2), ('arg', 3))) and off(row) and col == 'arg2':
+                    elif sh == ({'n': 1}, {'k': 1}) and row == shifted and col == {'i': 1}:
                         kinds[k] = 'incl'        # (n x k), ones at (n-k+i, i): [0; 1]
                     else:
-                        raise Bad('selector closure %s builds shape %s with entries (%s, %s)' % (k.split('::')[-1], sk(shape), row, col))
+                        raise Bad('selector %s builds shape %s with entries (%s, %s)' % (k.split('::')[-1], sk(shape), sk(ent[0]), sk(ent[1])))
+                    arity[k] = o
+        _ARITY.clear()
+        _ARITY.update(arity)
 
         def selector_kind(t):
             t = strip(t)
             if t[0] == 'call' and t[1] in kinds:
                 return kinds[t[1]]
+            if t[0] == 'call' and t[1].endswith('SpMat::<R>::id') and len(t[2]) == 1:
+                return 'id'
             return None
 
         # the two transforms: Trans::new(forward, backward)
@@ -445,8 +488,11 @@ def check_dimensions(facts, rep, root, kinds):
                 if a_[1] != b_[1]:
                     raise Bad('stack joins %s columns with %s columns' % (_ashow(a_[1]), _ashow(b_[1])))
                 return (_aff(a_[0], b_[0]), a_[1])
-            if t[1] in kinds and len(t[2]) == 2 and strip(t[2][1])[0] == 'tuple':
-                args = [dim(x) for x in strip(t[2][1])[1]]
+            if t[1] in kinds:
+                if _ARITY.get(t[1]) == 1 and len(t[2]) == 2 and strip(t[2][1])[0] == 'tuple':
+                    args = [dim(x) for x in strip(t[2][1])[1]]       # closure call: (env, (args..))
+                else:
+                    args = [dim(x) for x in t[2]]
                 kd = kinds[t[1]]
                 if kd == 'id' and len(args) == 1:
                     return (args[0], args[0])
